@@ -23,12 +23,12 @@ import (
 // and the Writer half of C09 put their own oracle on top of it.
 
 type wFault struct {
-	Broker int32
-	N      int // n-th produce request on that broker (1-based)
-	Act    string
-	Code   int16
-	CutAt  int
-	Mode   fakenet.CutMode
+	Broker  int32
+	N       int // n-th produce request on that broker (1-based)
+	Act     string
+	Code    int16
+	CutAt   int
+	Mode    fakenet.CutMode
 	DelayMs int
 	MoveTo  int32 // leader-move: new leader
 }
@@ -415,14 +415,18 @@ func wRunWorkload(k *core.Case, run *wRun, opts wWorkloadOpts) {
 				if opts.ctxFor != nil {
 					ctx = opts.ctxFor(g, c)
 				}
+				run.mu.Lock()
 				call.SeqCall = core.Tick()
+				run.mu.Unlock()
 				err := run.Writer.WriteMessages(ctx, msgs...)
+				run.mu.Lock()
 				call.SeqRet = core.Tick()
 				call.Err = err
 				var we kafka.WriteErrors
 				if errors.As(err, &we) {
 					call.PerMsg = we
 				}
+				run.mu.Unlock()
 			}
 		}(g)
 	}
